@@ -263,3 +263,66 @@ Theorem al_of_render rs : relations_okb rs = true ->
 Proof.
   intros H. destruct (rlex_lexable _ _ (lex_al_of rs H)) as [L T]. split; [exact T|exact L].
 Qed.
+
+(* ================================================================== the shape *)
+Lemma atoms_wsk w ts : wsk w = true -> forallb (fun wa : list rtoken * atom => wsk (fst wa)) (flat_map (atoms_of_term w) ts) = true.
+Proof.
+  intros Hw. induction ts as [|[[|] n] r IH]; [reflexivity| |]; cbn [flat_map atoms_of_term fst snd app forallb]; rewrite Hw, IH; reflexivity.
+Qed.
+Lemma al_archs_ok a : agroup_ok (al_archs a) = true.
+Proof.
+  unfold agroup_ok, al_archs. cbn [ag_ws0 ag_atoms ag_ws1]. change (wsk [tSP]) with true. change (wsk []) with true.
+  cbn [andb]. rewrite andb_true_r. destruct (map RelLossyP.arch_term a) as [|t r]; [reflexivity|].
+  cbn [atoms_of]. rewrite forallb_app, (atoms_wsk [tSP] r eq_refl), andb_true_r. destruct t as [[|] n]; reflexivity.
+Qed.
+Lemma al_group_ok g : pgroup_ok (al_group g) = true.
+Proof.
+  unfold pgroup_ok, al_group. cbn [pg_ws0 pg_terms pg_ws1]. change (wsk [tSP]) with true. change (wsk []) with true.
+  cbn [andb]. rewrite andb_true_r. destruct (map RelLossyP.prof_term g) as [|t r]; [reflexivity|].
+  assert (Ht : forall t : bool * str, pterm_ok (pterm_of t) = true) by (intros [[|] n]; reflexivity).
+  cbn [pterms_of forallb fst snd]. rewrite Ht. change (wsk []) with true. cbn [andb].
+  induction r as [|x r IH]; [reflexivity|]. cbn [map forallb fst snd]. rewrite Ht, IH. reflexivity.
+Qed.
+Lemma vpieces_nonempty s : s <> [] -> nonempty (vpieces s) = true.
+Proof.
+  destruct s as [|c r]; [congruence|]. intros _. unfold vpieces. cbn [length vpieces_go].
+  destruct (c =? 58)%N; [reflexivity|]. destruct (span is_ident_char r). reflexivity.
+Qed.
+Lemma al_ver_ok c x : dv_canonical x = true -> aver_ok (al_ver c x) = true.
+Proof.
+  intros Hv. unfold aver_ok, al_ver. cbn [av_ws0 av_ws1 av_op av_ws2 av_ver av_ws3].
+  rewrite (vpieces_nonempty _ (RelConvP.dv_canonical_print_nonempty x Hv)). destruct c; reflexivity.
+Qed.
+Lemma al_rel_ok bp r : relation_okb r = true -> arel_ok (al_rel bp r) = true.
+Proof.
+  destruct r as [n q a v ps]. intros Hok. destruct (okb_parts _ _ _ _ _ Hok) as (_ & _ & Hv & _ & _).
+  unfold arel_ok, al_rel. cbn [a_qual a_ver a_archs a_profs a_trail RelLossy.r_name r_archqual RelLossy.r_archs r_version r_profiles].
+  assert (E1 : opt_ok aqual_ok (option_map (mk_aqual [] []) q) = true) by (destruct q; reflexivity).
+  assert (E2 : opt_ok aver_ok (option_map (fun cv => al_ver (fst cv) (snd cv)) v) = true).
+  { destruct v as [[c x]|]; [|reflexivity]. cbn [option_map opt_ok fst snd]. apply al_ver_ok, Hv. }
+  assert (E3 : opt_ok agroup_ok (option_map al_archs a) = true) by (destruct a; [apply al_archs_ok|reflexivity]).
+  assert (E4 : forallb pgroup_ok (map al_group ps) = true).
+  { clear. induction ps as [|g r IH]; [reflexivity|]. cbn [map forallb]. rewrite al_group_ok, IH. reflexivity. }
+  rewrite E1, E2, E3, E4. destruct bp; reflexivity.
+Qed.
+Lemma al_alts_ok rs : forallb relation_okb rs = true -> forallb aalt_ok (al_alts rs) = true.
+Proof.
+  induction rs as [|r rs IH]; [reflexivity|]. cbn [forallb al_alts]. intros H. apply andb_true_iff in H. destruct H as [H1 H2].
+  rewrite (IH H2), andb_true_r. unfold aalt_ok. cbn [fst snd]. change (wsk [tSP]) with true. apply al_rel_ok, H1.
+Qed.
+Lemma al_item_ok a e : entry_okb e = true -> aitem_ok a (al_item e) = true.
+Proof.
+  destruct e as [|r rs]; [discriminate|]. cbn [entry_okb forallb]. intros H. apply andb_true_iff in H. destruct H as [H1 H2].
+  cbn [al_item aitem_ok]. rewrite (al_rel_ok _ r H1), (al_alts_ok rs H2). reflexivity.
+Qed.
+Lemma al_of_shape a rs : relations_okb rs = true -> ashape a (al_of rs) = true.
+Proof.
+  intros H. apply relations_okb_entries in H. destruct rs as [|e es]; [reflexivity|]. cbn [forallb] in H.
+  apply andb_true_iff in H. destruct H as [He Hes]. unfold ashape, al_of. cbn [af_lead af_first af_rest].
+  change (wsk []) with true. rewrite (al_item_ok a e He). cbn [andb].
+  induction es as [|e' es IH]; [reflexivity|]. cbn [forallb map] in *. apply andb_true_iff in Hes. destruct Hes as [He' Hes].
+  rewrite (IH Hes), andb_true_r. unfold amore_ok. cbn [fst snd]. change (wsk [tSP]) with true. apply al_item_ok, He'.
+Qed.
+
+Theorem al_of_awf a rs : relations_okb rs = true -> awf a (al_of rs) = true.
+Proof. intros H. unfold awf. rewrite (al_of_shape a rs H). apply (al_of_render rs H). Qed.
